@@ -297,6 +297,26 @@ def apply_op(u: Universe, st: State, ref: Ref, op):
             new = _index_put(cur, val, idx, acc) if need_cur else val.clone()
             ref.fork = (v, cur) if ref.mode is not None else None
             ref.indep[v] = new
+    elif kind == "to_device":
+        # moving the state to the device it is already on changes nothing observable (values, snapshot, fork mode)
+        st.to_device(torch.device("cpu"))
+    elif kind == "ctxput":
+        # an indexed / accumulating update made inside an auto_fork(mode) context (mode None = without snapshot)
+        _, mode, v, k, idx, acc = op
+        val = u.put_values[v][k]
+        cur = ref.indep[v]
+        if cur is None:
+            raise StepError("harness: ctxput on an unset variable is not in the explored menu")
+        before_mode = st.auto_fork_type
+        with st.auto_fork(MODES[mode]):
+            if idx is None:
+                st.put(v, val.clone(), accumulate=acc)
+            else:
+                st.put(v, val.clone(), indices=tuple(idx), accumulate=acc)
+        if st.auto_fork_type is not before_mode:
+            raise StepError("auto_fork context did not restore the fork mode")
+        ref.fork = (v, cur) if mode is not None else None
+        ref.indep[v] = _index_put(cur, val, idx, acc)
     elif kind == "read":
         v = op[1]
         exp = u.expected(ref.indep, ref.indep.key())[v] if v in u.observed else None
@@ -466,6 +486,7 @@ def menu(u: Universe, st: State, ref: Ref, *, accumulate=True, clones=True, mode
     for v in ([r for r in reads if r in u.dag.variables] if reads is not None else u.observed):
         ops.append(["read", v])
     ops.append(["precompute"])
+    ops.append(["to_device"])
     ops.append(["revert"])
     forked_weighted = ref.fork is not None and (
         isinstance(ref.fork[1], WeightedTensor) or isinstance(ref.indep.get(ref.fork[0]), WeightedTensor)
